@@ -78,6 +78,15 @@ def close_servers():
 atexit.register(close_servers)
 
 
+def reset_world():
+    """Fresh module state for the distance modules, here and in the hash-seed interpreters."""
+    from sim import world
+    world.reload_persim(("persim.bottleneck", "persim.wasserstein"))
+    for s in _servers.values():
+        if s.p.poll() is None:
+            s.ask({"reset": True})
+
+
 def call_bottleneck(sched, A, B, matching=False, mode="uniform", warn_filter="always",
                     site="bottleneck"):
     """Run persim.bottleneck under a scheduler-owned set order.
